@@ -51,13 +51,19 @@ def campaign(prop, t, seed):
         s = (seed * 1000 + i) % (2**31 - 1) or 1
         cmd = [binary(t), corp, "-runs=%d" % runs, "-seed=%d" % s, "-len_control=0", "-max_len=2048", "-timeout=60",
                "-artifact_prefix=" + art, "-print_final_stats=1", "-verbosity=1"]
-        procs.append((i, subprocess.Popen(cmd, cwd=work, env=ENV, stdout=subprocess.PIPE, stderr=subprocess.STDOUT, text=True), art, corp))
+        # output goes to a file: with pipes, every process but the one being waited for would block as
+        # soon as its pipe buffer is full, and the eight campaigns would run one after the other
+        logf = open(os.path.join(work, "log%d.txt" % i), "w")
+        procs.append((i, subprocess.Popen(cmd, cwd=work, env=ENV, stdout=logf, stderr=subprocess.STDOUT, text=True), art, corp, logf))
     total_execs = 0; units = 0; cov = 0; crashes = []
-    for i, p, art, corp in procs:
+    deadline = time.time() + 3 * 3600
+    for i, p, art, corp, logf in procs:
         try:
-            out, _ = p.communicate(timeout=3 * 3600)
+            p.wait(timeout=max(1, deadline - time.time()))
         except subprocess.TimeoutExpired:
-            p.kill(); out, _ = p.communicate()
+            p.kill(); p.wait()
+        logf.close()
+        out = open(os.path.join(work, "log%d.txt" % i), errors="replace").read()
         m = re.search(r"stat::number_of_executed_units:\s*(\d+)", out or "")
         if m: total_execs += int(m.group(1))
         for m in re.finditer(r"cov: (\d+)", out or ""):
